@@ -1127,7 +1127,7 @@ def rw_element_to_index_loop(func, k):
     owner = par.get(g) if isinstance(g, ast.comprehension) else g
     name = g.target.id
     it = g.iter
-    idx = '_idx_loop'
+    idx = '_idx_loop%d' % (len({n.id for n in ast.walk(func) if isinstance(n, ast.Name) and n.id.startswith('_idx_loop')} | {n.id for st_ in getattr(Ctx, 'window_outside', []) for n in ast.walk(st_) if isinstance(n, ast.Name) and n.id.startswith('_idx_loop')}) + 1)
     for n in list(ast.walk(owner)):
         if isinstance(n, ast.Name) and n.id == name and isinstance(n.ctx, ast.Load):
             replace_node(owner, n, fix(ast.Subscript(value=copy.deepcopy(it), slice=ast.Name(id=idx, ctx=ast.Load()), ctx=ast.Load()), n))
@@ -1991,7 +1991,20 @@ def rw_extract_temp(func, k):
                 bound |= {a.arg for a in p.args.args}
             if any(isinstance(y, ast.Name) and y.id in bound for y in ast.walk(e)):
                 return True
+            # an expression with effects is evaluated once per element / call there: it cannot be computed once in front
+            first_iter = (not isinstance(p, ast.Lambda)) and any(e is y for y in ast.walk(p.generators[0].iter))
+            if not _is_pure(e) and not first_iter:
+                return True
         p = par.get(p)
+    pure_e = _is_pure(e)
+    if not pure_e:
+        # moving an effectful expression in front of its statement must not overtake another effectful expression of the statement
+        inside_e = {id(y) for y in ast.walk(e)}
+        for c_ in ast.walk(st):
+            if isinstance(c_, ast.Call) and id(c_) not in inside_e and not _is_pure(c_) and not any(e is y for y in ast.walk(c_)):
+                return True
+            if isinstance(c_, ast.stmt) and c_ is not st:
+                break
     text = ast.dump(e)
     tname = '_xt%d' % (sum(1 for n in ast.walk(func) if isinstance(n, ast.Name) and n.id.startswith('_xt')) + 1)
     roots = _roots(e)
@@ -2000,6 +2013,10 @@ def rw_extract_temp(func, k):
     stop = False
     for st2 in blk[i:]:
         if stop:
+            break
+        if not pure_e:
+            # exactly the one occurrence: every evaluation of an effectful expression is a separate event
+            replace_node(st, e, fix(ast.Name(id=tname, ctx=ast.Load()), e))
             break
         for n in list(ast.walk(st2)):
             if isinstance(n, type(e)) and ast.dump(n) == text and isinstance(getattr(n, 'ctx', ast.Load()), ast.Load):
